@@ -81,6 +81,7 @@ class Sim:
         self.self_sigterm = False
         self.errors = []
         self.deadlock_hooks = []        # callables() -> bool (True if they unblocked something)
+        self.idle_hooks = []            # called when nobody is runnable, before model time advances
 
     def _tid(self):
         t = self.next_tid
@@ -166,6 +167,8 @@ class Sim:
             if c:
                 nxt = c[0]
                 break
+            if any(h() for h in self.idle_hooks):
+                continue            # e.g. an actor parked at a landing point goes on before model time advances
             if self._advance_clock():
                 continue
             if any(h() for h in self.deadlock_hooks):
@@ -282,15 +285,19 @@ class Sim:
             self.trace.append(("async-delivered", a.name, getattr(e, "__name__", str(e))))
             raise e()
 
-    def point(self, label):
-        """Injection point: executed before every statement of instrumented code."""
+    def point(self, label, async_ok=True):
+        """Injection point: executed before every statement of instrumented code.
+
+        async_ok=False marks a point inside a C-level call (e.g. half-way through a pipe write): a process
+        can be killed there, but no asynchronous Python exception can be raised there."""
         a = self.check_alive()
         a.points += 1
-        if a.pending_signal is not None:
+        if a.pending_signal is not None and async_ok:
             self._run_signal(a)
         if self.point_hook is not None:
-            self.point_hook(a, label)
-        self._deliver_async(a)
+            self.point_hook(a, label, async_ok)
+        if async_ok:
+            self._deliver_async(a)
 
     def set_async_exc(self, ident, exc):
         cur = self.check_alive()
